@@ -329,6 +329,12 @@ class Exec(HeapMixin, SpecEvalMixin, ExprMixin, StmtMixin, CallMixin):
                     for gcl in c.ghost_ensures:
                         fin = fin.assume(self.spec_bool(SpecEnv(fin, names, entry, dict(params)), gcl.expr))
                 self.apply_hints(fin, c.hints, SpecEnv(fin, names, entry, dict(params)))
+                for lbl, when in getattr(c, "must_raise", ()):
+                    # one-directional rejection clauses (`when` => the call does not return normally), each under its own
+                    # id and checked before the iff clauses, so that a known finding on the full domain clause cannot hide
+                    # a wider acceptance
+                    self.oblige(fin.copy(), Not(self.spec_bool(SpecEnv(entry, dict(params)), when)), "raises",
+                                f"must-raise-when:{lbl}")
                 for r in iff:
                     cond = self.spec_bool(SpecEnv(entry, dict(params)), r.when)
                     fin = self.oblige(fin, Not(cond), "raises", f"must-raise:{r.exc}")
